@@ -330,7 +330,11 @@ class Explorer:
         distribute subtrees over worker processes)."""
         results = []
         pending = [[]] if pending is None else list(pending)
+        t_start = time.time()
+        budget_s = float(os.environ.get('VERIF_TASK_SECONDS', '12')) if budget is not None else None
         while pending:
+            if budget_s is not None and results and time.time() - t_start > budget_s:
+                break
             if split_at is not None and len(pending) >= split_at:
                 break
             if budget is not None and len(results) >= budget:
@@ -1206,7 +1210,14 @@ class Interp:
                 tr = None
             return {'kind': 'qualified', 'self_text': st, 'self_ty': base_type_name(st),
                     'trait': base_type_name(tr) if tr else None, 'trait_text': tr, 'method': method, 'text': c}
-        sp = strip_generics(c)
+        # `path::<impl T>::method` names an inherent method of T
+        def _impl(m):
+            t = m.group(1).strip()
+            if t.startswith('['):
+                return 'slice'
+            return base_type_name(t)
+        c2 = re.sub(r'<impl ([^<>]*(?:<[^<>]*>)?[^<>]*)>', _impl, c)
+        sp = strip_generics(c2)
         segs = [s for s in sp.split('::') if s]
         return {'kind': 'path', 'segs': segs, 'method': segs[-1], 'text': c,
                 'self_ty': segs[-2] if len(segs) >= 2 else None}
